@@ -168,7 +168,7 @@ static std::string run_tissue(int ox, int cut, int ta, int tb, long* nonzero, in
 static std::string run_two_phases(int ta, int tb, int cut, int slots) {
     auto mk = [&](const sc::Mesh& m, short t, unsigned id) { return sc::make_cell(m, id, make_type(t, 1), true); };
     std::vector<cell_ptr> cells = {mk(sc::icosphere(1), (short)ta, 0), mk(sc::translated(sc::icosphere(1), 1.95, 0.1, -0.05), (short)tb, 1)};
-    if (slots) { local_mesh_refiner lmr(1e-3, 1e3, true); for (auto& c : cells) for (const edge& e0 : c->get_edge_set()) { edge e = e0; bool can = false; try { can = lmr.can_be_merged(e, c); } catch (...) {} if (!can) continue; edge_set es = c->get_edge_set(); try { lmr.merge_edge(e, c, es); } catch (...) {} break; } }
+    if (slots == 1) { local_mesh_refiner lmr(1e-3, 1e3, true); for (auto& c : cells) for (const edge& e0 : c->get_edge_set()) { edge e = e0; bool can = false; try { can = lmr.can_be_merged(e, c); } catch (...) {} if (!can) continue; edge_set es = c->get_edge_set(); try { lmr.merge_edge(e, c, es); } catch (...) {} break; } }
     prepare(cells); global_simulation_parameters sp = sc::make_sim_params("unused", 0.3); sp.contact_cutoff_adhesion_ = CADH[cut]; sp.contact_cutoff_repulsion_ = CREP[cut]; Model model(sp);
     zero_forces(cells); model.run(cells);
     long touched = 0; for (auto& c : cells) for (node& n : c->node_lst_) if (n.is_used_) { if (n.force_.norm() > 0) touched++;
@@ -178,7 +178,13 @@ static std::string run_two_phases(int ta, int tb, int cut, int slots) {
         if (!n.coupled_nodes_map_.empty()) touched++;
 #endif
     }
-    // the neighbour leaves
+    // the neighbour leaves (slots == 2: and shrinks, so that the curvature of its nodes rises above the coupling threshold of its type - which is how links are meant to break)
+#if CONTACT_MODEL_INDEX != 0
+    if (slots == 2) { double kmax = 0; for (auto& c : cells) for (node& n : c->node_lst_) if (n.is_used_) kmax = std::max(kmax, std::fabs(n.curvature_)); for (auto& c : cells) { auto ty = std::make_shared<cell_type_parameters>(*c->cell_type_); ty->surface_coupling_max_curvature_ = 1.5 * kmax; c->cell_type_ = ty; }
+        // the threshold is in force from the first phase on: run it again so that the couplings of the first phase were made under it
+        prepare(cells); zero_forces(cells); model.run(cells);
+        vec3 ctr(0, 0, 0); long n1 = 0; for (node& n : cells[1]->node_lst_) if (n.is_used_) { ctr = ctr + n.pos_; n1++; } ctr = ctr / (double)n1; for (node& n : cells[1]->node_lst_) if (n.is_used_) n.pos_ = ctr + (n.pos_ - ctr) * 0.4; }
+#endif
     for (node& n : cells[1]->node_lst_) if (n.is_used_) n.pos_ = n.pos_ + vec3(40, 0, 0);
     prepare(cells); zero_forces(cells); model.run(cells);
     std::string err; char buf[300];
@@ -273,8 +279,8 @@ static void explore(Result& R) {
     for (int ox = -12; ox <= 12; ox++) for (int cu = 0; cu < 2; cu++) for (int ta = 0; ta < 5; ta++) for (int tb = 0; tb < 5; tb++) { tissues++; std::string e = run_tissue(ox, cu, ta, tb, &nonzero);
         if (!e.empty()) R.violation(clause_of(e) + "|types=" + std::to_string(ta) + ">" + std::to_string(tb), "two icospheres, offset " + std::to_string(0.25 * ox) + ", types " + std::to_string(ta) + "," + std::to_string(tb) + ": " + e, "mode=tissue\nox=" + std::to_string(ox) + "\ncut=" + std::to_string(cu) + "\nta=" + std::to_string(ta) + "\ntb=" + std::to_string(tb) + "\n"); }
     for (int t = 0; t < 5; t++) for (int cu = 0; cu < 2; cu++) for (int ids = 0; ids < N_ID_SCHEMES; ids++) { tissues++; std::string e = run_self(t, cu, ids); if (!e.empty()) R.violation(clause_of(e), "single concave cell of type " + std::to_string(t) + " with id " + std::to_string(scheme_id(ids, 0)) + " at list position 0: " + e, "mode=self\ntype=" + std::to_string(t) + "\ncut=" + std::to_string(cu) + "\nids=" + std::to_string(ids) + "\n"); }
-    { long two = 0, probes = 0; for (int ta = 0; ta < 5; ta++) for (int tb = 0; tb < 5; tb++) for (int cu = 0; cu < 2; cu++) { for (int sl = 0; sl < 2; sl++) { std::string e = run_two_phases(ta, tb, cu, sl); two++; tissues++; if (e.rfind("INTERNAL", 0) == 0) { if (ta == 0 && tb == 0) { R.internal_error = e; return; } continue; }
-            if (!e.empty()) R.violation(clause_of(e) + "|types=" + std::to_string(ta) + ">" + std::to_string(tb) + "|two-phases", "two icospheres 0.05 below contact, then 40 cell sizes apart, types " + std::to_string(ta) + "," + std::to_string(tb) + (sl ? ", node lists with a free slot" : "") + ": " + e, "mode=twophase\nta=" + std::to_string(ta) + "\ntb=" + std::to_string(tb) + "\ncut=" + std::to_string(cu) + "\nslots=" + std::to_string(sl) + "\n"); }
+    { long two = 0, probes = 0; for (int ta = 0; ta < 5; ta++) for (int tb = 0; tb < 5; tb++) for (int cu = 0; cu < 2; cu++) { for (int sl = 0; sl < 3; sl++) { std::string e = run_two_phases(ta, tb, cu, sl); two++; tissues++; if (e.rfind("INTERNAL", 0) == 0) { if (ta == 0 && tb == 0) { R.internal_error = e; return; } continue; }
+            if (!e.empty()) R.violation(clause_of(e) + "|types=" + std::to_string(ta) + ">" + std::to_string(tb) + "|two-phases", "two icospheres 0.05 below contact, then 40 cell sizes apart, types " + std::to_string(ta) + "," + std::to_string(tb) + (sl == 1 ? ", node lists with a free slot" : sl == 2 ? ", the leaving cell shrinks: the curvature of its nodes rises above the coupling threshold" : "") + ": " + e, "mode=twophase\nta=" + std::to_string(ta) + "\ntb=" + std::to_string(tb) + "\ncut=" + std::to_string(cu) + "\nslots=" + std::to_string(sl) + "\n"); }
           std::string e = run_recreated_faces(ta, tb, cu, &probes); tissues++; if (!e.empty() && e != "skip") R.violation(clause_of(e) + "|types=" + std::to_string(ta) + ">" + std::to_string(tb) + "|recreated-faces", "types " + std::to_string(ta) + "," + std::to_string(tb) + ": " + e, "mode=recreated\nta=" + std::to_string(ta) + "\ntb=" + std::to_string(tb) + "\ncut=" + std::to_string(cu) + "\n"); }
       R["two_phase_tissues"] = two; R["probes_of_faces_recreated_since_the_last_refresh"] = probes; if (!probes && R.violations.empty()) R.internal_error = "no re-created face was probed (vacuous)"; }
     { long turned = 0, tnz = 0; for (int ox : {-8, -7, 6, 7, 8}) for (int cu = 0; cu < 2; cu++) for (int ta = 0; ta < 5; ta++) for (int tb = 0; tb < 5; tb++) for (int which = 0; which < 2; which++) { turned++; tissues++; std::string e = run_turned(ox, cu, ta, tb, which, &tnz);
